@@ -22,6 +22,7 @@ type Config struct {
 	Async     bool                  `json:"async"`
 	Threshold int                   `json:"threshold,omitempty"`
 	TimeoutMs int64                 `json:"timeout_ms,omitempty"`
+	OffStruct bool                  `json:"off_struct,omitempty"` // async off is expressed by a present, disabled Async value instead of nil
 	Lower     bool                  `json:"lowercase_names"`
 	Ext       string                `json:"ext"`
 	Cons      map[string]model.Cons `json:"cons"`
@@ -120,6 +121,7 @@ func GenConfig(r *simrt.Rand, p *Profile) *Config {
 		c.Threshold = []int{1, 2, 3, 1000}[r.Intn(4)]
 		c.TimeoutMs = []int64{100, 250, 1000, 60000, 3600000}[r.Intn(5)]
 	}
+	c.OffStruct = r.Fork(31).Chance(1, 4)
 	nU := p.UniqueMin
 	if p.UniqueMax > p.UniqueMin {
 		nU += r.Intn(p.UniqueMax - p.UniqueMin + 1)
@@ -172,6 +174,8 @@ func (c *Config) Schema() sod.Schema {
 	s.Compress = c.Compress
 	if c.Async {
 		s.Asynchrone(c.Threshold, time.Duration(c.TimeoutMs)*time.Millisecond)
+	} else if c.OffStruct {
+		s.AsyncWrites = &sod.Async{Enable: false, Threshold: 2, Timeout: 100 * time.Millisecond}
 	}
 	return s
 }
